@@ -134,3 +134,52 @@ func Discharge(obls []*Obligation, workDir string, timeoutS, seed, parallel int)
 	}
 	wg.Wait()
 }
+
+
+// DischargeAll discharges the obligations; undecided ones are retried with
+// other seeds and a longer timeout, and merged post-conditions fall back to
+// their per-return-point split.
+func DischargeAll(obls []*Obligation, workDir string, timeoutS, seed, parallel int) {
+	Discharge(obls, workDir, timeoutS, seed, parallel)
+	undecided := func() []*Obligation {
+		var out []*Obligation
+		for _, o := range obls {
+			if o.Status != "unsat" && o.Status != "sat" && !o.ExpectSat {
+				out = append(out, o)
+			}
+		}
+		return out
+	}
+	// per-return split first: cheap and usually decisive
+	var alts []*Obligation
+	var withAlts []*Obligation
+	for _, o := range undecided() {
+		if o.HasAlts {
+			withAlts = append(withAlts, o)
+			alts = append(alts, o.Alts...)
+		}
+	}
+	if len(alts) > 0 {
+		Discharge(alts, filepath.Join(workDir, "split"), timeoutS, seed, parallel)
+		for _, o := range withAlts {
+			all := true
+			var ms int64
+			for _, a := range o.Alts {
+				ms += a.Ms
+				if a.Status != "unsat" {
+					all = false
+				}
+			}
+			if all {
+				o.Status, o.Solver, o.Ms = "unsat", "split-by-return", o.Ms+ms
+			}
+		}
+	}
+	for round := 1; round <= 2; round++ {
+		u := undecided()
+		if len(u) == 0 || len(u) > 60 {
+			return
+		}
+		Discharge(u, filepath.Join(workDir, fmt.Sprintf("retry%d", round)), timeoutS*3, seed+round*7919, parallel)
+	}
+}
